@@ -243,6 +243,9 @@ def run_c06(chk):
     # where a call still returns within the budget; the scaling itself is recorded below, not judged
     rcases += [{"mode": "deep", "depth": d, "shape": s} for d in ([100, 1000, 4000] + ([] if quick else [16000]))
                for s in ("array", "object-rec", "oneof-rec", "map-rec", "any", "query")]
+    # ... and far beyond any sensible document: a few megabytes of opening brackets. One stack frame set per level would
+    # need more than the 1 GB a goroutine stack may grow to, which is fatal for the process (not a recoverable panic)
+    rcases += [{"mode": "deep", "depth": 400000, "shape": s} for s in ("array", "object-rec", "oneof-rec", "map-rec", "any", "query")]
     rcases += [{"mode": "huge", "digits": d} for d in (30, 400, 5000, 200000)]
     resr = chk.replay("wire-rand", rcases, "rand", workers=W, timeout="120s")
     chk.absorb("wire-rand", rcases, resr, crash_sig=rand_sig)
